@@ -78,7 +78,7 @@ CHECKS = {
  "C13": {
   "level": "proof",
   "technique": "Coq proofs of writer/reader contracts + exhaustive grids against protobuf-go protowire",
-  "text": "Proved in Coq for all values/sizes (no bound): all 30 single writers (15 kinds x Always) append exactly the reference field or nothing; Message/AlwaysMessage/PresentMessage/AlwaysAnyBytes compose to tag+len+payload for every length and leave no trace on absence; single readers: untouched on another field, sticky error naming the field on a wrong wire type, exactly one field consumed otherwise. PARTIAL: Repeated* readers/writers, Message readers and arbitrary programs are tied by the exhaustive correspondence grids only.",
+  "text": "Proved in Coq for all values/sizes (no bound): all 30 single writers (15 kinds x Always) append exactly the reference field or nothing; Message/AlwaysMessage/PresentMessage/AlwaysAnyBytes compose to tag+len+payload for every length and leave no trace on absence; C13_encoder_programs (Schema/Calls.v): EVERY program of Encoder calls - the 60 typed writers (single and repeated/packed), RepeatedEnum, UnrecognizedFields, and Message/AlwaysMessage/PresentMessage/AlwaysAnyBytes nested to any depth, with callbacks that write anything and then report presence or absence - appends exactly the concatenation of the reference encodings to whatever the buffer held; C13_absent_message_no_trace. Readers: untouched on another field, sticky error naming the field on a wrong wire type, exactly one field consumed otherwise; on ARBITRARY input every single reader satisfies the token contract (C13_reader_any_input), Repeated* readers consume all consecutive occurrences packed or not (C13_repeated_reader_iteration, C13_packed_is_reference_unpack), and Message/RepeatedMessage/UnrecognizedFields readers compose into T_dec. Per run: the writer/reader grids, 4000 random Encoder-call programs through the real API (fresh, stale and one-byte-capacity buffers), readers inside Message callbacks followed by a failing reader or the public Fail() at the outer level, all against the model and protobuf-go's protowire.",
   "note": "Trusted: Coq 8.16.1 kernel (vm_compute, no native_compute, no axioms: Print Assumptions recorded in evidence), extraction with ExtrOcamlBasic, the OCaml driver, the Go harness and generators, protobuf-go v1.31.0 as oracle. The tie between model and Go code is differential testing on the projection named in the level text, not proof.",
   "ref": "8 C13"
  },
